@@ -79,6 +79,9 @@ def merge(results):
                 out['extra'][k] = v
         for m in r.get('notes', []):
             out['inconclusive'].append(m)
+        for f, d in r.get('reach', {}).items():
+            for q, ls in d.items():
+                out.setdefault('reach', {}).setdefault(f, {}).setdefault(q, set()).update(ls)
     return out
 
 
@@ -159,7 +162,9 @@ def conclude(pid, mod, tier, seed, plan, m, wall):
             distinct_by_class={k: len(v) for k, v in sorted(m['classes'].items())},
             known_findings_seen={k: len(v) for k, v in known_seen.items()},
             inconclusive=inconclusive, shards=plan.get('shards', NPROC), plan=plan,
-            repo=REPO, **{k: v for k, v in m['extra'].items()}),
+            repo=REPO,
+            code_under_test_reached=reach_summary(pid, m.get('reach', {})),
+            **{k: v for k, v in m['extra'].items()}),
         assumptions=getattr(mod, 'ASSUMPTIONS', []),
         wall_s=round(wall, 2), violations=len(new_viol))
     with open(os.path.join(OUT_DIR, 'evidence', '%s.json' % pid), 'w') as f:
@@ -179,6 +184,25 @@ def conclude(pid, mod, tier, seed, plan, m, wall):
             print('INCONCLUSIVE property=%s reason=%s' % (pid, i[:2000]))
         return 2
     return 0
+
+
+def reach_summary(pid, reach):
+    """Lines/functions of the files the property is anchored in that the workload actually executed."""
+    anchors = []
+    try:
+        for l in open(os.path.join(VERIF_DIR, 'properties.jsonl')):
+            p = json.loads(l)
+            if p['id'] == pid:
+                anchors = [f for f in p['anchors']['files'] if f.endswith('.py')]
+    except Exception:       # noqa
+        pass
+    out = {}
+    for f in sorted(set(anchors) | set(reach)):
+        d = reach.get(f, {})
+        if f in anchors or d:
+            out[f] = dict(anchored=f in anchors, lines_executed=sum(len(v) for v in d.values()),
+                          functions_executed=sorted(q for q in d if q != '<module>'))
+    return out
 
 
 def replay(pid, mod, path):
